@@ -67,6 +67,10 @@ def is_url(
     if tld_aware:
         parsed = safe_urlsplit(string)
         if not has_valid_tld(parsed):
+            # NOTE: the pattern may see a host where the parser sees none
+            if not parsed.hostname:
+                return False
+
             return is_special_host(parsed.hostname)
 
     return True
